@@ -63,6 +63,18 @@ def tree():
     return st.lists(n, max_size=4)
 
 
+def repeat_some(nodes, pick):
+    """in some child lists one dependency occurs again as the very same object (same uid, "share" key)"""
+    out = []
+    for i, n in enumerate(nodes):
+        if n["k"] in ("tag", "list"):
+            n = dict(n, kids=repeat_some(n["kids"], pick // 3 + i))
+        out.append(n)
+        if n["k"] == "dep" and (pick + i) % 3 == 0:
+            out.extend([n] * (1 + (pick // 5) % 2))
+    return out
+
+
 def assign_uids(nodes, counter=None):
     """unique head payload per dependency, in document order"""
     if counter is None:
@@ -79,6 +91,18 @@ def assign_uids(nodes, counter=None):
     return out
 
 
+def _mark_shared(nodes):
+    out = []
+    for n in nodes:
+        if n["k"] == "dep":
+            out.append(dict(n, share=n["head"]))
+        elif n["k"] in ("tag", "list"):
+            out.append(dict(n, kids=_mark_shared(n["kids"])))
+        else:
+            out.append(n)
+    return out
+
+
 def uid(dep_obj) -> int:
     s = dep_obj.head.get_html_string()
     return int(s[len("<!--uid") : -len("-->")])
@@ -88,12 +112,16 @@ def body_resolve(case, note):
     import htmltools as h
 
     roots = assign_uids(case["roots"])
+    if case.get("repeat"):
+        roots = repeat_some(_mark_shared(roots), case["repeat"])
     pre = D.preorder(roots)
-    objs = [build(r) for r in roots]
+    memo: dict = {}
+    objs = [build(r, memo) for r in roots]
     tl = h.TagList(*objs)
     raw = tl.get_dependencies(dedup=False)
-    check([uid(d) for d in raw] == list(range(len(pre))), "get_dependencies(dedup=False) dropped or reordered dependencies", list(range(len(pre))), [uid(d) for d in raw])
-    want = [pre.index(d) for d in D.resolve(pre)]
+    pre_uids = [int(d["head"][len("<!--uid") : -len("-->")]) for d in pre]
+    check([uid(d) for d in raw] == pre_uids, "get_dependencies(dedup=False) dropped or reordered dependencies", pre_uids, [uid(d) for d in raw])
+    want = [pre_uids[pre.index(d)] for d in D.resolve(pre)]
     got = tl.get_dependencies()
     check([uid(d) for d in got] == want, "get_dependencies() does not keep one per name / highest version / earliest on ties / first-occurrence order", _desc(pre, want), _desc(pre, [uid(d) for d in got]))
     check(all(any(g is r for r in raw) for g in got), "resolved dependencies are not the collected objects themselves")
@@ -106,7 +134,8 @@ def body_resolve(case, note):
     check(len(flat) == len(got) and all(a is b for a, b in zip(flat, got)), "resolution depends on where the dependencies sit in the tree")
     wrapped = h.Tag("div", h.Tag("span", tl, _add_ws=False))
     check([uid(d) for d in wrapped.get_dependencies()] == want, "Tag.get_dependencies() differs when the same content is nested two levels deeper")
-    check([uid(d) for d in wrapped.get_dependencies(dedup=False)] == list(range(len(pre))), "Tag.get_dependencies(dedup=False) dropped or reordered")
+    check([uid(d) for d in wrapped.get_dependencies(dedup=False)] == pre_uids, "Tag.get_dependencies(dedup=False) dropped or reordered")
+    check([uid(d) for d in wrapped.get_dependencies(False)] == pre_uids, "Tag.get_dependencies(False) (positional) dropped or reordered")
     # non-trivial: same name with versions whose lexical and numeric order disagree, or an equal-version tie
     nt = False
     byname: dict = {}
@@ -122,7 +151,7 @@ def body_resolve(case, note):
                     tie = True
                 elif (ka < kb) != (a < b):
                     lexdis = True
-    note(tie or lexdis, "tie" if tie else "", "lexical-vs-numeric" if lexdis else "", "nested-depth" if any(n["k"] in ("tag", "list") for n in roots) else "", "suffix" if any(not d["version"].replace(".", "").isdigit() for d in pre) else "")
+    note(tie or lexdis, "same-object-repeated" if case.get("repeat") and len(pre_uids) > len(set(pre_uids)) else "", "tie" if tie else "", "lexical-vs-numeric" if lexdis else "", "nested-depth" if any(n["k"] in ("tag", "list") for n in roots) else "", "suffix" if any(not d["version"].replace(".", "").isdigit() for d in pre) else "")
 
 
 def _desc(pre, idx):
@@ -179,7 +208,7 @@ def body_single(case, note):
 
 # ---------------------------------------------------------------- invalid definitions
 
-BAD_ITEMS = [3, "s", ["src", "x"], None, 1.5]
+BAD_ITEMS = [3, "s", ["src", "x"], None, 1.5, [["href", "a.css"]], [["src", "a.js"]], [["name", "n"], ["content", "c"]], [["href", "a.css"], ["rel", "x"]]]
 
 
 def invalid_case():
@@ -265,7 +294,7 @@ RULE = (
 )
 
 CLAUSES = [
-    Clause("resolve", body_resolve, strategy=lambda: st.fixed_dictionaries({"roots": tree()}), quick=900, thorough=12000, shards_quick=4, required=("tie", "lexical-vs-numeric", "nested-depth", "suffix"), rule="see RULE"),
+    Clause("resolve", body_resolve, strategy=lambda: st.fixed_dictionaries({"roots": tree(), "repeat": st.one_of(st.just(0), st.integers(1, 10**6))}), quick=900, thorough=12000, shards_quick=4, required=("tie", "lexical-vs-numeric", "nested-depth", "suffix", "same-object-repeated"), rule="see RULE"),
     Clause("single", body_single, strategy=single_case, quick=400, thorough=3000, shards_quick=1, shards_thorough=4, rule=">=2 of script/stylesheet/meta given"),
     Clause(
         "invalid",
